@@ -100,3 +100,44 @@ def dump_index(db=None, with_time=False):
     out["edge"] = sorted((e.id, e.node_from_id, e.group_to_id, bool(e.autosync), bool(e.autoclean))
                          for e in StorageTransferAction.select())
     return out
+
+
+class CliEnv(Env):
+    """Env whose index lives in a file so that the real click CLI (alpenhorn.cli.entry) can be run on it
+    in-process via CliRunner, exactly as a user would (config file + database extension)."""
+
+    def __init__(self, hostname="h1", extra=None):
+        super().__init__(hostname=hostname, dbfile=True, extra=extra)
+        import yaml
+        self.conf = os.path.join(self.tmp, "alpenhorn.conf")
+        cfg = {"base": {"hostname": hostname}, "extensions": ["verif_dbext", "verif_idext"]}
+        if extra:
+            cfg = self.config.merge_dict_tree(cfg, extra)
+        with open(self.conf, "w") as f:
+            yaml.safe_dump(cfg, f)
+        self._saved_cfg = self.config.config
+
+    def reconnect(self):
+        """(re)establish the harness's own connection/config after a CLI run"""
+        self.reset_globals()
+        self.config.config = self._saved_cfg
+        self.extensions.load_extensions()
+        self.db.connect()
+
+    def cli(self, args, input=None, faults=None):
+        """Run `alpenhorn <args>`; returns (exit_code, output, exception)."""
+        from click.testing import CliRunner
+        from alpenhorn.cli import entry
+        self.reset_globals()
+        verif_dbext.reset_counters()
+        verif_dbext.CTL["fault_at"] = set(faults or ())
+        try:
+            res = CliRunner().invoke(entry, ["--test-isolation", "-c", self.conf] + list(args), input=input,
+                                     catch_exceptions=True)
+        finally:
+            verif_dbext.CTL["fault_at"] = set()
+            nstmt = verif_dbext.CTL["count"]
+            self.reconnect()
+        self.last_stmt_count = nstmt
+        exc = res.exception if res.exception is not None and not isinstance(res.exception, SystemExit) else None
+        return res.exit_code, res.output, exc
